@@ -128,36 +128,58 @@ pub(crate) fn str_slice(mut args: ArgumentResult, visitor: &mut Visitor) -> Sass
 pub(crate) fn str_split(mut args: ArgumentResult, visitor: &mut Visitor) -> SassResult<Value> {
     args.max_args(3)?;
 
-    let s1 = args
+    let (s1, quotes) = args
         .get_err(0, "string")?
-        .assert_string_with_name("string", args.span())?
-        .0;
+        .assert_string_with_name("string", args.span())?;
 
     let separator = args
         .get_err(1, "separator")?
         .assert_string_with_name("separator", args.span())?
         .0;
 
-    let limit = args.default_arg(2, "limit", Value::Null);
-
-    let vec = if matches!(limit, Value::Null) {
-        s1.split(&separator)
-            .map(|s| Value::String(s.to_string(), QuoteKind::Quoted))
-            .collect()
-    } else {
-        let limit = limit.assert_number_with_name("limit", args.span())?;
-        let limit_int = limit.assert_int_with_name("limit", args.span())?;
-        if limit_int < 1 {
-            return Err((
-                format!("$limit: Must be 1 or greater, was {}.", limit_int),
-                args.span(),
-            )
-                .into());
+    let limit = match args.default_arg(2, "limit", Value::Null) {
+        Value::Null => None,
+        limit => {
+            let limit = limit.assert_number_with_name("limit", args.span())?;
+            let limit_int = limit.assert_int_with_name("limit", args.span())?;
+            if limit_int < 1 {
+                return Err((
+                    format!("$limit: Must be 1 or greater, was {}.", limit_int),
+                    args.span(),
+                )
+                    .into());
+            }
+            Some(limit_int as usize)
         }
-        // note: `1 + limit_int` is required to match dart-sass
-        s1.splitn(limit_int.saturating_add(1) as usize, &separator)
-            .map(|s| Value::String(s.to_string(), QuoteKind::Quoted))
-            .collect()
+    };
+
+    // the pieces keep the quotes of the original string
+    let piece = |s: &str| Value::String(s.to_owned(), quotes);
+
+    let vec: Vec<Value> = if s1.is_empty() {
+        Vec::new()
+    } else if separator.is_empty() {
+        // an empty separator splits into code points (`str::split("")` would also
+        // yield an empty string at both ends)
+        let mut pieces = Vec::new();
+        let mut chars = s1.char_indices();
+        for (idx, c) in chars.by_ref() {
+            if limit == Some(pieces.len()) {
+                pieces.push(piece(&s1[idx..]));
+                break;
+            }
+            pieces.push(piece(c.encode_utf8(&mut [0; 4])));
+        }
+        pieces
+    } else {
+        match limit {
+            None => s1.split(&separator).map(piece).collect(),
+            // note: `1 + limit` is required to match dart-sass
+            Some(limit) => s1
+                .splitn(limit.saturating_add(1), &separator)
+                .map(piece)
+                .collect(),
+        }
     };
     Ok(Value::List(vec, ListSeparator::Comma, Brackets::Bracketed))
 }
